@@ -68,6 +68,14 @@ class FnInfo:
         self.aliases = dict(opts.get("aliases", {}))    # local name -> qualified name of a translated function
         self.record_calls = list(opts.get("record_calls", []))  # constructors recorded as (name, kwargs)
         self.fuel = bool(opts.get("fuel", False))
+        self.inherited = []         # opaque parameters of callees, passed through
+
+    def opaque_params(self):
+        out = []
+        for v in list(self.opaque.values()) + list(self.inherited):
+            if v not in out:
+                out.append(v)
+        return out
 
 
 class Translator:
@@ -207,10 +215,7 @@ class Translator:
         for k in list(info.opaque) + list(info.opaque_fun) + list(info.inline) + ["record:" + r for r in info.record_calls]:
             if k not in self.used_opaque:
                 raise Unsupported("%s: opaque %r never used" % (info.qual, k))
-        ops = []
-        for k, v in info.opaque.items():
-            if v not in ops:
-                ops.append(v)
+        ops = info.opaque_params()
         params = ""
         if info.opaque_fun:
             for k, (nm, ar) in info.opaque_fun.items():
@@ -662,6 +667,8 @@ class Translator:
                 return [], mangle(e.id)
             if e.id in self.consts:
                 return [], "c_" + e.id
+            if e.id in self.cur.opts.get("names", []):
+                return [], "(VStr %s)" % coq_string(e.id)
             self.err(e, "unknown name %s" % e.id)
         if isinstance(e, (ast.List, ast.Tuple)):
             binds, atoms = [], []
@@ -937,8 +944,10 @@ class Translator:
             pre = ""
             for k2, v2 in callee.opaque_fun.items():
                 pre += " " + v2[0]
-            for v2 in dict.fromkeys(callee.opaque.values()):
+            for v2 in callee.opaque_params():
                 pre += " " + v2
+                if v2 not in self.cur.opaque.values() and v2 not in self.cur.inherited:
+                    self.cur.inherited.append(v2)
             if callee.fuel:
                 pre = " fuel" + pre
             term = "%s%s %s" % (callee.coqname, pre, " ".join(atoms))
